@@ -54,8 +54,12 @@ def construct_impl(ctx):
                 return f
         for c in [n for n in ast.walk(f.node) if isinstance(n, ast.Call)]:
             if isinstance(c.func, ast.Attribute) and isinstance(c.func.value, ast.Name) and c.func.value.id in ("cls", "self", "Response"):
-                t = prog.lookup_method(f.cls, c.func.attr)
+                t = prog.lookup_method(f.cls, c.func.attr) if f.cls is not None else None
                 if t is not None:
+                    todo.append(t)
+            elif isinstance(c.func, ast.Name):
+                t = resolve_call(prog, f, c)          # (the builder as a module-level function)
+                if t is not None and t.qual in prog.funcs and t.module is f.module:
                     todo.append(t)
     raise AnalysisError("no function reachable from Response.construct builds a response object from a slice of the frame")
 
